@@ -1,5 +1,6 @@
 import Driver.Util
 import Mtv.Client.Errors
+import Mtv.Client.ErrHeld
 namespace Driver.C17
 open Mtv Mtv.Client Driver
 
@@ -97,8 +98,51 @@ def kindOk (tok : String) : Bool :=
 
 def shapeOk (s : String) : Bool := ["plain", "gz", "cont", "cgz"].contains s
 
+/-- `code:hex,…` — the replies of `c17.ident` / `c17.callers` (codes are int32) -/
+def parseItems? (s : String) : Option (List Reply) :=
+  (s.splitOn ",").mapM fun t =>
+    match t.splitOn ":" with
+    | [c, h] => do
+      let n ← c.toInt?
+      let m ← fromHex? h
+      if n < -2147483648 || n > 2147483647 then none else pure (n, m)
+    | _ => none
+
+/-- a held error as `c17.ident` / `c17.callers` print it -/
+def showHeld : Outcome NativeErr → String :=
+  showOutcome fun e =>
+    s!"code={e.code} msg={toHexD e.message} desc={toHexD e.description} param={showParam e.param} err={toHexD e.errorText}"
+
+def joinBar (xs : List String) : String := " | ".intercalate xs
+
+def parMode (mode : String) : Bool :=
+  mode.startsWith "par" &&
+    (match (mode.drop 3).toNat? with | some k => 2 ≤ k && k ≤ 16 && toString k == (mode.drop 3).toString | none => false)
+
 /-- operations of property C17 -/
 def handle : List String → String
+  -- identity of the errors handed out: what the callers HOLD after all the replies were converted (`heldAfter`: a
+  -- new cell per conversion), what each conversion returned although earlier callers wrote into their errors
+  -- (`returnedWith`); goroutines: every result has its own cell, so the interleaving does not enter
+  | ["c17.ident", mode, items] =>
+    match parseItems? items with
+    | none => "bad-op"
+    | some rs =>
+      if mode == "hold" || parMode mode then joinBar ((heldAfter rs).map showHeld)
+      else if mode == "mut" then joinBar ((returnedWith (scribbledHistory ⟨-7, [], [], .none⟩ 0 rs)).map showHeld)
+      else if mode == "exp" then
+        joinBar (rs.map fun r => showOutcome (fun (x : Bytes × Param) => s!"name={toHexD x.1} param={showParam x.2}") (tryExpand r.2))
+      else "bad-op"
+  -- the same through the client: one caller per reply (none of them PHONE_MIGRATE_n), every caller holds the error of
+  -- ITS reply whatever the order and timing of the answers
+  | ["c17.callers", mode, items] =>
+    match parseItems? items with
+    | none => "bad-op"
+    | some rs =>
+      if !(["s", "f", "r", "w"].contains mode) || rs.length > 64 then "bad-op"
+      else if rs.all (fun r => secondReturned r.1 r.2) then
+        joinBar ((heldAfter rs).map showHeld) ++ s!" | reqs={rs.length}"
+      else "bad-op"
   -- every kind of call through the request path: the decision is that of `c17.req` — what the call's answer is
   -- and how it is delivered do not enter; the caller gets the value of the peer the model says answers
   | ["c17.home", kind, shape] =>
